@@ -216,7 +216,9 @@ type AppOp struct {
 // ReentSpec makes a listener call back into the session (C18).
 type ReentSpec struct {
 	Event string `json:"event"` // session event, "srv-flush"/"srv-drain", or "callback"
-	Call  string `json:"call"`  // send | close | close-discard
+	Call  string `json:"call"`  // send | close | close-discard | sleep (a listener that takes Ms of virtual time)
+	Ms    int    `json:"ms,omitempty"`
+	Then  string `json:"then,omitempty"` // sleep only: when the listener wakes, another application task calls close | close-discard at that very instant
 	Sess  string `json:"sess,omitempty"`
 	Nth   int    `json:"nth"` // fire on the nth occurrence (1-based)
 }
